@@ -11,7 +11,7 @@
 //!           Reopen, with the node's committed root (`TxHashSet::roots`), the accumulator seen by a fresh
 //!           extension and the real leaf set next to the from-scratch commitment of the model set.
 //!           Production (Mainnet) block weight, so that one block may create hundreds of outputs.
-use crate::{from_scratch_chunks, hx, load_roots, obs_value, root_of_chunks, NBITS};
+use crate::{demanded_output_root, from_scratch_chunks, hx, load_roots, obs_value, root_of_chunks, NBITS};
 use chrono::Duration;
 use grin_chain::txhashset::{self, BitmapAccumulator, PMMRHandle, TxHashSet};
 use grin_chain::{ChainStore, Error as ChainError, Tip};
@@ -241,7 +241,16 @@ impl DWorld {
 		header.height = prev.height + 1;
 		// nothing at this level compares the version with the height: version 3 is the first whose output_root
 		// folds the bitmap root (OutputRoots::root)
-		header.version = HeaderVersion(consensus::header_version(header.height).0.max(3));
+		// nothing at this level compares the header version with the height: all five versions are used, 1 and 2
+		// demand the bare output PMMR root, 3 (the first folded one), 4 and 5 the fold with the bitmap root
+		let _ = consensus::header_version(header.height);
+		header.version = HeaderVersion(match self.rng.gen_range(0, 100) {
+			0..=9 => 1,
+			10..=19 => 2,
+			20..=59 => 3,
+			60..=79 => 4,
+			_ => 5,
+		});
 		header.prev_hash = prev.hash();
 		header.timestamp = prev.timestamp + Duration::seconds(60);
 		header.output_mmr_size = mmr_size(new_size);
@@ -280,7 +289,7 @@ impl DWorld {
 				root_of_chunks(&self.roots, &from_scratch_chunks(&st.uns, st.size))
 			};
 			let h = &mut self.blocks[id].block.header;
-			h.output_root = (pmmr_root, fs).hash_with_index(h.output_mmr_size);
+			h.output_root = demanded_output_root(h.version.0, pmmr_root, fs, h.output_mmr_size);
 			h.range_proof_root = rproof_root;
 			h.kernel_root = kernel_root;
 			self.blocks[id].pmmr_root = Some(pmmr_root);
@@ -379,12 +388,26 @@ impl DWorld {
 				chunks.push(BTreeSet::new()); // ... and one more all-zero chunk
 			}
 			let wrong = root_of_chunks(&self.roots, &chunks);
+			let version = self.blocks[id].block.header.version.0;
+			// from version 3 on: another bitmap folded in, or (first twin, one time in three) no fold at all;
+			// versions 1, 2 (bare root demanded): any fold
+			let (name, wrong_root) = if version >= 3 && k == 0 && self.rng.gen_range(0, 3) == 0 {
+				("bare_pmmr_root", pmmr_root)
+			} else if version >= 3 {
+				(name, (pmmr_root, wrong).hash_with_index(self.blocks[id].block.header.output_mmr_size))
+			} else if self.rng.gen_range(0, 2) == 0 {
+				let fs = root_of_chunks(&self.roots, &from_scratch_chunks(&st.uns, st.size));
+				("folded_before_v3", (pmmr_root, fs).hash_with_index(self.blocks[id].block.header.output_mmr_size))
+			} else {
+				("folded_before_v3_other_bitmap", (pmmr_root, wrong).hash_with_index(self.blocks[id].block.header.output_mmr_size))
+			};
+			self.bump(&format!("wrong_root_v{}", version));
 			let mut blk = self.blocks[id].block.clone();
 			self.twin_no += 1;
 			let ps = global::proofsize() as u64;
 			blk.header.pow.proof = Proof::new((0..ps).map(|j| (1 << 24) + self.twin_no * 64 + j).collect());
 			let honest = blk.header.output_root;
-			blk.header.output_root = (pmmr_root, wrong).hash_with_index(blk.header.output_mmr_size);
+			blk.header.output_root = wrong_root;
 			if blk.header.output_root == honest {
 				continue;
 			}
@@ -750,6 +773,10 @@ impl DWorld {
 		}
 		let st = self.blocks[self.head].state.clone();
 		let o = self.observe(&st);
+		// a start-up rebuild cut at the number of unspent leaves would lose bits of complete old chunks here
+		if chunk_of(st.size - 1) >= 1 && (st.uns.len() as u64) < chunk_of(st.size - 1) * NBITS {
+			self.bump("reopen_fewer_unspent_than_bits_in_complete_chunks");
+		}
 		self.put(json!({"k":"Reopen"}), Some(o));
 		if self.rng.gen_range(0, 100) < 60 {
 			let header = self.blocks[self.head].block.header.clone();
